@@ -65,7 +65,7 @@ fn c19_5b_sub_f64() {
     if !d.is_sign_negative() {
         assert!(r.ticks <= t.ticks, "C19.5b: subtraction never wraps (ticks do not increase)");
         if d <= t.fraction { assert!(r.ticks == t.ticks, "C19.5b: no borrow when d <= fraction"); }
-        if d > t.fraction && d - t.fraction <= 1.0 && t.ticks >= 1 { assert!(r.ticks == t.ticks - 1, "C19.5b: single borrow"); }
+        if d > t.fraction && d - t.fraction <= 1.0 && t.ticks >= 1 { assert!(r.ticks == t.ticks - 1 || (r.ticks == t.ticks && r.fraction == 0.0), "C19.5b: single borrow (or the same instant written as a whole tick)"); }
     } else {
         assert!(r.ticks >= t.ticks, "C19.5b: subtracting a negative amount never decreases ticks");
     }
@@ -74,7 +74,7 @@ fn c19_5b_sub_f64() {
 }
 
 // @ob id=C19.5e strength=complete tier=thorough timeout=3600 fn=clock/time.rs::<ClockTime as Sub<f64>>::sub
-// @req t as above with ticks >= 1, 0 <= d <= 1 (at most one borrow), EXCLUDING the recorded finding F13 region (x = fract(fraction - d) with x + 1.0 rounding to 1.0 or 2.0)
+// @req t as above with ticks >= 1, 0 <= d <= 1 (at most one borrow), (includes the corner that was finding F13, repaired by fix cfea7ec)
 // @ens the total time ticks + fraction moves back by d to rounding: |(total(t) - total(r)) - d| <= 2^-52
 #[kani::proof]
 #[kani::unwind(3)]
@@ -82,8 +82,6 @@ fn c19_5e_sub_small_exact() {
     let t = any_time();
     kani::assume(t.ticks >= 1 && t.ticks <= (1u64 << 32));
     let d = any_f64_in(0.0, 1.0);
-    let x = (t.fraction - d).fract();
-    kani::assume(!((x < 0.0 && x + 1.0 == 1.0) || x + 1.0 == 2.0)); // F13 region: `x + 1.0` rounds to a whole number
     let r = t - d;
     let delta = (t.ticks - r.ticks) as f64 + (t.fraction - r.fraction);
     assert!((delta - d).abs() <= 2.3e-16, "C19.5e: subtracting d in [0,1] moves the total time back by d to rounding");
@@ -91,12 +89,12 @@ fn c19_5e_sub_small_exact() {
     kani::cover!(r.ticks == t.ticks && d > 0.0);
 }
 
-// @ob id=C19.5f strength=complete tier=quick finding=F13 fn=clock/time.rs::<ClockTime as Sub<f64>>::sub
-// @req witness for finding F13: ticks >= 1, 0 <= d <= 1, x = fract(fraction - d) with x + 1.0 rounding to 1.0 or 2.0 (e.g. ticks=1, fraction=2.5e-116, d=1e-51; or fraction=1-2^-53, d=3.5e-176)
-// @ens (expected to FAIL while F13 is present) the total moves back by d to rounding; the real code loses a whole tick
+// @ob id=C19.5f strength=complete tier=quick fn=clock/time.rs::<ClockTime as Sub<f64>>::sub
+// @req the rounding corner of former finding F13 (fixed in cfea7ec): ticks >= 1, 0 <= d <= 1, x = fract(fraction - d) with x + 1.0 rounding to 1.0 or 2.0 (e.g. ticks=1, fraction=2.5e-116, d=1e-51; or fraction=1-2^-53, d=3.5e-176)
+// @ens the total moves back by d to rounding (the pre-fix code lost a whole tick here)
 #[kani::proof]
 #[kani::unwind(3)]
-fn c19_5f_witness_f13_sub_tiny_loses_tick() {
+fn c19_5f_sub_tiny_keeps_the_tick() {
     let t = any_time();
     kani::assume(t.ticks >= 1 && t.ticks <= (1u64 << 32));
     let d = any_f64_in(0.0, 1.0);
@@ -108,8 +106,27 @@ fn c19_5f_witness_f13_sub_tiny_loses_tick() {
     kani::cover!(true);
 }
 
+// @ob id=C19.5h strength=bounded tier=quick timeout=1500 bound="fraction and d restricted to 8 significant mantissa bits (all exponents); ticks in 1..=2^32" fn=clock/time.rs::<ClockTime as Sub<f64>>::sub
+// @req 0 <= d <= 1, ticks >= 1, reduced-precision fraction and d
+// @ens the total time moves back by d to rounding (|delta - d| <= 2^-52), in every rounding corner
+#[kani::proof]
+#[kani::unwind(3)]
+fn c19_5h_sub_small_exact_reduced() {
+    let t = any_time();
+    kani::assume(t.ticks >= 1 && t.ticks <= (1u64 << 32));
+    let d = any_f64_in(0.0, 1.0);
+    let m = (1u64 << 44) - 1;
+    kani::assume(t.fraction.to_bits() & m == 0 && d.to_bits() & m == 0);
+    let r = t - d;
+    assert!(r.fraction >= 0.0 && r.fraction < 1.0, "C19.5h: fraction in [0,1)");
+    let delta = (t.ticks - r.ticks) as f64 + (t.fraction - r.fraction);
+    assert!((delta - d).abs() <= 2.3e-16, "C19.5h: subtracting d in [0,1] moves the total time back by d to rounding");
+    kani::cover!(r.ticks < t.ticks);
+    kani::cover!(d > 0.0 && d < 1.0e-30);
+}
+
 // @ob id=C19.5c strength=bounded tier=thorough timeout=1800 bound="d and fraction restricted to 10-bit mantissas; ticks <= 2^20; d in [0, 2^20]" fn=clock/time.rs::{Add<f64>,Sub<f64>}
-// @req t as above, 0 <= d <= 2^20, operands with 10 significant mantissa bits; F13 region excluded
+// @req t as above, 0 <= d <= 2^20, operands with 10 significant mantissa bits
 // @ens (t + d) - d returns t to rounding: |total((t+d)-d) - total(t)| <= 2^-30
 #[kani::proof]
 #[kani::unwind(3)]
@@ -120,8 +137,6 @@ fn c19_5c_add_then_sub_roundtrip() {
     let d = any_f64_in(0.0, 1048576.0);
     kani::assume(d.to_bits() & ((1u64 << 42) - 1) == 0);
     let u = t + d;
-    let x = (u.fraction - d).fract();
-    kani::assume(!((x < 0.0 && x + 1.0 == 1.0) || x + 1.0 == 2.0)); // F13 region
     let r = u - d;
     assert!(r.fraction >= 0.0 && r.fraction < 1.0, "C19.5c: fraction in [0,1)");
     let diff = (r.ticks as f64 - t.ticks as f64) + (r.fraction - t.fraction);
